@@ -1,11 +1,13 @@
 #!/usr/bin/env bash
 # apply each stored refactoring to a scratch worktree of /repo HEAD (outside /repo and /verif) and require all 20 quick checks to stay quiet
 cd "$(dirname "$0")/.."
-rc=0
-for d in refactorings/R*/; do
-  k=$(basename "$d"); tmp=$(mktemp -d -t curies-refac-XXXX)
-  git -C /repo worktree add -q --detach "$tmp/wt" HEAD && git -C "$tmp/wt" apply "$PWD/$d/patch.diff" || { echo "$k: patch does not apply"; rc=1; }
-  echo "== $k"; /venv/bin/python tools/eval_refactor.py "$tmp/wt" --jobs "${JOBS:-6}" | grep -E "^tests|rc=[12]|not quiet" || true
-  git -C /repo worktree remove --force "$tmp/wt"; rm -rf "$tmp"
+base=$(mktemp -d -t curies-refall-XXXX)
+wts=()
+for d in refactorings/*/; do
+  k=$(basename "$d"); [ -f "$d/patch.diff" ] || continue
+  git -C /repo worktree add -q --detach "$base/$k" HEAD && git -C "$base/$k" apply "$PWD/$d/patch.diff" || { echo "$k: patch does not apply"; continue; }
+  wts+=("$base/$k")
 done
-exit $rc
+/venv/bin/python tools/eval_refactor_batch.py "${wts[@]}" --jobs="${JOBS:-14}" | grep -E "NOT-QUIET|check runs|^      "
+for w in "${wts[@]}"; do git -C /repo worktree remove --force "$w"; done
+rm -rf "$base"
